@@ -64,7 +64,7 @@ Qed.
 Lemma E_store_expired st a k : E (store_expired st a k).
 Proof.
   intros w. unfold store_expired. destruct (aget key_eqb k _); [|apply E_put_store].
-  eapply ext_trans; [apply E_put_store|eapply E_neutral, n_store_callback].
+  eapply ext_trans; [|apply E_ghost]. eapply ext_trans; [apply E_put_store|eapply E_neutral, n_store_callback].
 Qed.
 Lemma E_store_stop_all_for_address st a : E (store_stop_all_for_address st a).
 Proof.
@@ -79,7 +79,9 @@ Proof.
 Qed.
 Lemma E_refresh_tail st ttl a k : E (fun w => fst (refresh_tail st ttl a k w)).
 Proof.
-  intros w. unfold refresh_tail. destruct (ttl =? TTL_FOREVER); [cbn [fst]; apply E_put_store|].
+  intros w0. unfold refresh_tail. cbv zeta. apply (ext_trans _ (ghost (GRefresh st a k ttl) w0)); [apply E_ghost|].
+  generalize (ghost (GRefresh st a k ttl) w0). clear w0. intros w.
+  destruct (ttl =? TTL_FOREVER); [cbn [fst]; apply E_put_store|].
   destruct (call_later (ttl * usec_per_sec) (HExpired st a k) w) as [t w'] eqn:Ec. cbn [fst].
   assert (w' = snd (call_later (ttl * usec_per_sec) (HExpired st a k) w)) as -> by (rewrite Ec; reflexivity).
   eapply ext_trans; [apply E_call_later|apply E_put_store].
